@@ -163,7 +163,7 @@ class _C13(Spec):
     rule = ("line protocol: `show`/`parse` for every well-formed interval with end points in [-40,40] and seeded |x| < 2^62; `showlist`/`parselist` for all "
             "lists of <=3 intervals over -3..3 (thorough; <=2 plus samples in quick); `bynum` for every subset of [-5,5] and seeded strictly increasing lists from "
             "[-30,30] of length <=12, thresholds 0..6; `human` over lists of <=3 intervals over 0..4 and random lists; reversed texts 'b-a'.")
-    assumptions = IVAL_ASSUME + ["strconv.ParseInt's int64 range check is outside the model: texts with a digit run longer than 18 are answered `unmodelled` by the driver and only compared for totality"]
+    assumptions = IVAL_ASSUME + ["strconv.ParseInt's int64 range check is outside the model: texts with a number beyond 2^63-1 are answered `unmodelled` by the driver and only compared for totality"]
 
     def compare_default(self, req, impl, model):
         if model == "unmodelled":
